@@ -33,7 +33,7 @@ def _layouts():
     out = []
     full = (K_LI, K_LIX, K_P, K_PX, K_TEXT, K_COMMENT)
     small = (K_LI, K_P, K_TEXT)
-    maxfull, maxsmall = (3, 5) if TIER == 'quick' else (5, 8)
+    maxfull, maxsmall = (3, 4) if TIER == 'quick' else (5, 8)
     for n in range(1, maxfull + 1):
         out.extend(itertools.product(full, repeat=n))
     for n in range(maxfull + 1, maxsmall + 1):
